@@ -222,6 +222,19 @@ func evalPartial(p *Partial, ctx interface{}, env *Env) (interface{}, error) {
 			holes++
 		}
 	}
+	// f(?, x) is a function of its placeholders: the other arguments are evaluated
+	// here, once, when the partial application is made
+	bound := make([]interface{}, len(p.Args))
+	for i, a := range p.Args {
+		if a == nil {
+			continue
+		}
+		v, err := Eval(a, ctx, env)
+		if err != nil {
+			return nil, err
+		}
+		bound[i] = v
+	}
 	pf := &Func{Name: f.Name + "_partial", Arity: holes}
 	pf.Call = func(args []interface{}) (interface{}, error) {
 		full := make([]interface{}, len(p.Args))
@@ -236,11 +249,7 @@ func evalPartial(p *Partial, ctx interface{}, env *Env) (interface{}, error) {
 				k++
 				continue
 			}
-			v, err := Eval(a, ctx, env)
-			if err != nil {
-				return nil, err
-			}
-			full[i] = v
+			full[i] = bound[i]
 		}
 		if f.CallCtx != nil {
 			return f.CallCtx(full, ctx)
